@@ -575,6 +575,29 @@ func (t *Table) validateIndexKeys(item map[string]*types.Item) error {
 	return nil
 }
 
+// ValidatePut tells if Put would accept the item: the key attributes and the
+// index key attributes it has must be of the declared types
+func (t *Table) ValidatePut(item map[string]*types.Item) error {
+	if _, err := t.KeySchema.GetKey(t.AttributesDef, item); err != nil {
+		return types.NewError("ValidationException", err.Error(), nil)
+	}
+
+	if err := t.validateIndexKeys(item); err != nil {
+		return types.NewError("ValidationException", err.Error(), nil)
+	}
+
+	return nil
+}
+
+// ValidateKey tells if the key identifies an item of the table
+func (t *Table) ValidateKey(key map[string]*types.Item) error {
+	if _, err := t.KeySchema.GetKey(t.AttributesDef, key); err != nil {
+		return types.NewError("ValidationException", err.Error(), nil)
+	}
+
+	return nil
+}
+
 func (t *Table) interpreterUpdate(input interpreter.UpdateInput) error {
 	if t.UseNativeInterpreter {
 		return t.NativeInterpreter.Update(input)
